@@ -56,6 +56,7 @@ opcodes = {
     "memory.size": 0x3F,
     "memory.grow": 0x40,
     "i32.const": 0x41,
+    "f32.const": 0x43,
     "i32.eqz": 0x45,
     "i32.eq": 0x46,
     "i32.ne": 0x47,
@@ -373,11 +374,14 @@ class Instruction:
 
     def WriteTo(self, output: BinaryIO):
         WriteByte(output, self.__opcode)
-        # TODO Handle non-integer arguments
         if self.__args:
             signed = self.__opcode == opcodes["i32.const"]
             for arg in self.__args:
-                WriteInteger(output, arg, signed)
+                if self.__opcode == opcodes["f32.const"]:
+                    # The immediate is the IEEE 754 single, not an integer
+                    WriteFloat(output, arg)
+                else:
+                    WriteInteger(output, arg, signed)
 
 
 class Code:
